@@ -4,7 +4,8 @@ from concurrent.futures import ThreadPoolExecutor
 from .. import core
 from ..core import Undecided
 
-CFG = "SPECIFICATION %s\nCONSTANTS\n    MaxEv = %d\n    MaxSwap = %d\nINVARIANTS\n    %s\nCHECK_DEADLOCK FALSE\n"
+BOTH = "{FALSE, TRUE}"
+CFG = "SPECIFICATION %s\nCONSTANTS\n    MaxEv = %d\n    MaxSwap = %d\n    Modes = %s\nINVARIANTS\n    %s\nCHECK_DEADLOCK FALSE\n"
 
 
 def schedules(ctx, out):
@@ -19,7 +20,7 @@ def schedules(ctx, out):
 
 def judge(ctx, tag, tracefile):
     n = core.count_lines(tracefile)
-    r = core.tlc(ctx, "judge-" + tag, "TraceWatchers", None, cfgtext=CFG % ("TraceSpec", 0, 0, "Result"), workers=1, timeout=3000,
+    r = core.tlc(ctx, "judge-" + tag, "TraceWatchers", None, cfgtext=CFG % ("TraceSpec", 0, 0, BOTH, "Result"), workers=1, timeout=3000,
                  files={tracefile: "trace.ndjson"}, heap="6g")
     m = re.findall(r'<<"RESULT", "(.*)">>', r["out"])
     if r["rc"] != 0 or not m:
@@ -61,22 +62,26 @@ def report(ctx, res, tracefile, kind):
 def run(ctx):
     q = ctx.quick()
     # 1. the design: the specification satisfies the property for all interleavings within the bounds
-    core.tlc_design(ctx, "design-watchers", "Watchers", None,
-                    cfgtext=CFG % ("Spec", 2 if q else 3, 2, "ExactlyOneBatch\n    DataChained\n    NothingPending\n    QueueFollows"),
-                    workers=core.NCPU, timeout=3000)
+    props = "ExactlyOneBatch\n    DataChained\n    NothingPending\n    QueueFollows"
+    core.tlc_design(ctx, "design-watchers", "Watchers", None, cfgtext=CFG % ("Spec", 2, 2, BOTH, props), workers=core.NCPU, timeout=3000)
+    if not q:
+        # three deliveries: one run per value of the option (the mode never changes within a behaviour)
+        for mode in ("{FALSE}", "{TRUE}"):
+            core.tlc_design(ctx, "design-watchers-3-" + mode.strip("{}").lower(), "Watchers", None, cfgtext=CFG % ("Spec", 3, 2, mode, props),
+                            workers=core.NCPU, timeout=3000)
     core.build_harness(ctx, ["watchx"])
     core.build_harness(ctx, ["watchx"], race=True)
     # 2. schedules proposed by TLC, replayed one by one on the real watchers
-    r = core.tlc(ctx, "gen-ex", "Watchers", None, cfgtext=CFG % ("Spec", 2, 1, "Emit"), workers=1, timeout=1800)
+    r = core.tlc(ctx, "gen-ex", "Watchers", None, cfgtext=CFG % ("Spec", 2, 1, BOTH, "Emit"), workers=1, timeout=1800)
     if r["rc"] != 0:
         raise Undecided("schedule enumeration failed:\n" + r["out"][-2000:])
-    ctx.tlc_stats.append(dict(name="gen-exhaustive", module="Watchers", cfg="every schedule of 2 deliveries (117 events) and 1 swap",
+    ctx.tlc_stats.append(dict(name="gen-exhaustive", module="Watchers", cfg="every schedule of 2 deliveries (135 events) and 1 swap, in both modes of the EndpointSlice option",
                               generated=r["generated"], distinct=r["distinct"], depth=r["depth"], wall_s=round(r["wall"], 1), violated=None))
     scheds = schedules(ctx, r["out"])
-    if len(scheds) < 36000:
+    if len(scheds) < 100000:
         raise Undecided("TLC enumerated only %d schedules" % len(scheds))
     for s in range(1 if q else 6):
-        r = core.tlc(ctx, "gen-sim%d" % s, "Watchers", None, cfgtext=CFG % ("Spec", 8, 4, "Emit"), workers=1, timeout=1800,
+        r = core.tlc(ctx, "gen-sim%d" % s, "Watchers", None, cfgtext=CFG % ("Spec", 8, 4, BOTH, "Emit"), workers=1, timeout=1800,
                      simulate="num=%d" % (1500 if q else 6000), depth=14, extra=["-seed", str(ctx.seed * 10 + s)])
         if r["rc"] != 0:
             raise Undecided("schedule generation failed:\n" + r["out"][-2000:])
@@ -131,8 +136,8 @@ def run(ctx):
     sample = extract(seqout, "s0")
     core.write_evidence(ctx, sample[:12], extra=dict(sequential_schedules=len(scheds), concurrent_executions=len(good) * iters,
                         concurrent_processes=procs, race_detector=True, batches_in_first_concurrent_process=nbatch, model_drift=drift,
-                        bounds="event vocabulary of 117 events (ConfigMap global / tcp / other of the controller namespace / foreign x op x 3 data versions; Ingress and IngressClass x op x class "
-                               "validity before/after; Service/Secret/Endpoints x 2 names x op; Pod x op x terminating; Gateway / HTTPRoute / TCPRoute x op; GatewayClass x op x class validity before/after); exhaustive 2 deliveries + 1 swap, "
+                        bounds="event vocabulary of 135 events x the two values of --enable-endpointslices-api (ConfigMap global / tcp / other of the controller namespace / foreign x op x 3 data versions; Ingress and IngressClass x op x class "
+                               "validity before/after; Service/Secret x 2 names x op; Endpoints x 2 names x op x subsets changed; EndpointSlice x service label a/x or none x op x endpoints changed; Pod x op x terminating; Gateway / HTTPRoute / TCPRoute x op; GatewayClass x op x class validity before/after); exhaustive 2 deliveries + 1 swap, "
                                "simulated 8 deliveries + 4 swaps; concurrent: 3-8 informer goroutines x 60-180 uniquely named events each while another "
                                "goroutine swaps continuously and delivers the ConfigMap updates, GOMAXPROCS 2..16, built with -race"),
                         assumptions=["the harness calls the handlers through hook H2 (predicates, then handler) instead of informers",
